@@ -24,6 +24,17 @@ Budget(c) == /\ c.maxb >= Mx(40, c.dq)
              /\ \/ c.br \in {-1000, -1}
                 \/ c.br >= 6000 /\ c.br * c.dq >= 96000
 
+\* The DTX-off clause is asserted on the domain in which the encoder is not forced onto its "too little
+\* space: emit TOC-only packets" path.  Packets of up to 20 ms: exactly the property's antecedent, at least
+\* three bytes per packet in bitrate and buffer.  Longer packets: the encoder additionally wants 2400 b/s
+\* and 300 bytes/s of buffer, computed with a truncated packet rate (a literal "three bytes per 20 ms
+\* frame" does not hold on the pinned tree: at 1200..2399 b/s every 40-120 ms packet is TOC-only), so
+\* there the antecedent is read with a factor two of margin (R2): >= 4800 b/s, >= 12 bytes per 20 ms.
+TinyBudget(c) == /\ c.maxb >= 3
+                 /\ \/ c.br \in {-1000, -1}
+                    \/ c.br * c.dq >= 48000 /\ (c.dq > 40 => c.br >= 4800)
+                 /\ c.dq > 40 => c.maxb * 2000 >= 600 * c.dq
+
 Init == /\ l = 1 /\ cfg = [dq |-> 0] /\ since = 0 /\ sawDtx = FALSE /\ refreshed = FALSE /\ clean = TRUE /\ run = 0
         /\ loudRun = 0 /\ afterQuiet = FALSE /\ mctr = 0
 
@@ -69,8 +80,11 @@ TEnc ==
                 /\ StartUpperOK(since, sawDtx, isDtx)
                 /\ clean => StartLowerOK(since, sawDtx, isDtx, D)
           /\ (e.cls = 1 /\ afterQuiet) => ~isDtx                    \* renewed activity coded at once
+          \* ... also when the onset lies inside the packet (silence, then at least a quarter of the
+          \* packet loud): asserted where the activity analysis runs
+          /\ (AnalysisRuns(cfg.cx, cfg.fs) /\ e.cls = 2 /\ e.lf >= 25 /\ afterQuiet) => ~isDtx
      \* --- DTX disabled: never a packet of two bytes or fewer
-     /\ (cfg.dtx = 0 /\ sizeClauses) => ((e.r > 2 \/ (TolerateBust /\ isBust)) /\ e.indtx = 0)
+     /\ (cfg.dtx = 0 /\ TinyBudget(cfg)) => ((e.r > 2 \/ (TolerateBust /\ isBust)) /\ e.indtx = 0)
      \* --- decoder: requested durations, near-silence in the gap, audio afterwards
      /\ e.r > 0 => (e.d1 = e.fr /\ e.d2 = e.fr)
      \* (until the first refresh packet has told the decoder what the gap sounds like, comfort noise is
